@@ -122,6 +122,9 @@ func runProp(repo, verif, prop, tier string, def propDef, want *Finding) int {
 		}()
 		def.run(p, r)
 	}()
+	if tier == "thorough" && want == nil && prop != "C09" && prop != "C16" {
+		runVariants(repo, prop, def, r)
+	}
 	if want != nil {
 		// replay: keep only the wanted obligation
 		var keep []Finding
@@ -145,3 +148,52 @@ func runProp(repo, verif, prop, tier string, def propDef, want *Finding) int {
 
 // extraCoverage lets a property add level-specific keys (C09: programs, ...).
 var extraCoverage = map[string]map[string]interface{}{}
+
+// runVariants re-evaluates the property under alternative build configurations and requires that no
+// configuration shows a violation the default configuration does not show (packages that do not build
+// there are dropped; lost anchors are expected and ignored).
+func runVariants(repo, prop string, def propDef, r *Report) {
+	variants := [][]string{
+		{"CGO_ENABLED=0"},
+		{"CGO_ENABLED=0", "GOOS=darwin", "GOARCH=amd64"},
+		{"CGO_ENABLED=0", "GOOS=windows", "GOARCH=amd64"},
+		{"CGO_ENABLED=0", "GOARCH=386"},
+	}
+	base := map[string]bool{}
+	for _, f := range r.Findings {
+		base[f.Rule+"|"+f.Key] = true
+	}
+	for _, env := range variants {
+		name := strings.Join(env, " ")
+		p2, err := Load(repo, loadConfig{Env: env, AllowDrop: true})
+		if err != nil {
+			r.Undecided("CONFIG", "load:"+name, "-", "cannot load under "+name+": "+err.Error())
+			continue
+		}
+		// fresh caches for the new program
+		unitCallMemo = map[string][]unit{}
+		r2 := NewReport(prop, "thorough")
+		func() {
+			defer func() {
+				if e := recover(); e != nil {
+					r2.Undecided("PANIC", "checker-panic", "-", fmt.Sprint(e))
+				}
+			}()
+			def.run(p2, r2)
+		}()
+		extra := 0
+		for _, f := range r2.Findings {
+			if strings.HasPrefix(f.Key, "anchor-lost:") || strings.Contains(f.Message, "not loaded") || strings.Contains(f.Message, "not found") {
+				continue
+			}
+			if base[f.Rule+"|"+f.Key] {
+				continue
+			}
+			extra++
+			r.Fail(f.Rule, "config["+name+"]:"+f.Key, f.Pos, "only under build configuration "+name+": "+f.Message)
+		}
+		r.Notes = append(r.Notes, fmt.Sprintf("configuration [%s]: %d module packages (dropped: %s), %d obligations, %d discharged, %d findings not present in the default configuration",
+			name, len(p2.Pkgs), strings.Join(p2.Dropped, ","), r2.Obligations, r2.Discharged, extra))
+		r.Analysed["config ["+name+"] obligations"] = r2.Obligations
+	}
+}
